@@ -84,6 +84,11 @@ class Stream:
         return len(text)
 
 
+class _Stat:
+    def __init__(self, size):
+        self.st_size = size
+
+
 class ModelPath:
     """minimal pathlib.Path stand-in bound to a ModelFS"""
     fs = None
@@ -119,6 +124,11 @@ class ModelPath:
         return self._p in self.fs.files
 
     is_file = exists
+
+    def stat(self):
+        if self._p not in self.fs.files:
+            raise FileNotFoundError(self._p)
+        return _Stat(len(self.fs.files[self._p]))
 
     def __str__(self):
         return self._p
